@@ -1,4 +1,5 @@
 import HealSparse.Props.C04
+import HealSparse.Props.C04Kernels
 #print axioms HS.C04.checkInv_iff
 #print axioms HS.C04.inv_makeEmpty
 #print axioms HS.C04.inv_reserve
@@ -13,3 +14,9 @@ import HealSparse.Props.C04
 #print axioms HS.C04.reachable_get_checkInv
 #print axioms HS.C04.reachable_get_ok
 #print axioms HS.C04.reachable_file_wf
+#print axioms HS.C04.kernel_bitshift
+#print axioms HS.C04.kernel_bitshift_exhaustive
+#print axioms HS.C04.kernel_bitshift_spec
+#print axioms HS.C04.kernel_default_sentinels
+#print axioms HS.C04.kernel_sentinels_all_dtypes
+#print axioms HS.C04.kernel_unseen
